@@ -1,5 +1,6 @@
 import Zc.Proofs.QueryGen
 import Zc.GenFacts.FnHistory
+import Zc.GenFacts.FnDns
 /-! # C13 — queries carry known answers and are not needlessly repeated
 
 Model: `Zc.QueryGen` (`lean/Zc/Model/QueryGen.lean`): `generate_service_query`, the lookup's
@@ -368,6 +369,21 @@ theorem C13_history_is_source (ops : List HOp) :
       ∀ q now known, s.suppresses lower q now known = (runModel lower ops []).suppresses lower q now known := by
   obtain ⟨s, h1, h2⟩ := run_sim lower ops (sim_init lower)
   exact ⟨s, h1, h2.2.1, fun q now known => sim_suppresses lower h2 q now known⟩
+
+/-- **Known answers, with the translated `DNSRecord.is_stale`** (`GenFn/Dns.lean`, the whole method body): the known-answer
+list consists of exactly the cached records of that name, type and class on which the translated `is_stale(now)` answers `False`. -/
+theorem C13_known_exact_source (cache : List Rec) (name : String) (type cls : Nat) (now : Int) (r : Rec) :
+    r ∈ knownAnswers lower cache name type cls now ↔
+      r ∈ cache ∧ lower r.name = lower name ∧ r.type = type ∧ r.class_ = cls ∧ Zc.GenFn.Dns.DNSRecord.is_stale r now = false := by
+  rw [C13_known_exact, Zc.GenFacts.FnDns.is_stale_eq]
+  have : r.isStale now = false ↔ now < r.created + 500 * r.ttl := by
+    rw [← Bool.not_eq_true, Rec.isStale, is_stale_iff]; omega
+  rw [this]
+
+/-- … and each goes on the wire with the floor of what the translated `get_remaining_ttl(now)` returns -/
+theorem C13_known_ttl_source (now : Int) (r : Rec) (h : now < r.created + 500 * r.ttl) :
+    wireAnswer now r = some (r, (Zc.GenFn.Dns.DNSRecord.get_remaining_ttl r now).toNat) := by
+  rw [Zc.GenFacts.FnDns.get_remaining_ttl_eq, C13_known_ttl now r h, Rec.remainingTtl, remaining_ttl_eq _ _ _ (by omega)]
 
 /-- non-vacuity: a question recorded 999 ms ago with a covered known-answer set suppresses, at 1000 ms it does not -/
 example :
